@@ -389,8 +389,10 @@ def conclude(a, cfg, tier, seed, results, native, t0):
     ev = {"property_id": prop, "tier": tier, "seed": seed, "level": cfg["level"], "coverage": coverage,
           "assumptions": sorted(assumptions) + cfg.get("assumption_notes", []), "wall_s": round(wall, 2),
           "violations": len(lines)}
-    os.makedirs(os.path.join(VERIF, "evidence"), exist_ok=True)
-    json.dump(ev, open(os.path.join(VERIF, "evidence", "%s.json" % prop), "w"), indent=1, default=str)
+    # runs against a scratch copy (VERIF_REPO set: development / mutation runs) never touch the committed evidence
+    evdir = os.path.join(VERIF, "evidence") if not os.environ.get("VERIF_REPO") else os.path.join(VERIF, "out", "evidence-scratch")
+    os.makedirs(evdir, exist_ok=True)
+    json.dump(ev, open(os.path.join(evdir, "%s.json" % prop), "w"), indent=1, default=str)
     print("%s tier=%s exit=%d obligations=%d discharged=%d refuter_checked=%d native_evals=%s wall=%.1fs" % (
         prop, tier, exit_code, n_obl, n_dis, coverage["refuter"]["obligations_checked"], nat.get("evaluations"), wall))
     return exit_code
